@@ -75,6 +75,16 @@ pub mod memory {
     pub fn max_layout(a: Layout, b: Layout) -> (r: Layout) { unimplemented!() }
 }
 
+/// precondition of gcd_ext on two `Large` operands (besides large_wf): a resource bound (room for the top quotient word of
+/// the cofactor) and the EXCLUSION OF A KNOWN DEFECT: when the smaller operand DIVIDES the larger one and is more than two
+/// words shorter, the residue buffer is shorter than the divisor and div::div_rem_in_place panics
+/// (`assertion failed: lhs.len() >= rhs.len() && rhs.len() >= 2`), e.g. gcd_ext(2^320, 2^128)
+pub open spec fn gcd_ext_large_pre(ls: Seq<Word>, rs: Seq<Word>) -> bool {
+    &&& ls.len() + 1 < max_capacity()
+    &&& rs.len() + 1 < max_capacity()
+    &&& ((val(ls) % val(rs) != 0 && val(rs) % val(ls) != 0) || (ls.len() <= rs.len() + 2 && rs.len() <= ls.len() + 2))
+}
+
 pub open spec fn gcdo_bez(a: int, l: int, b: int, r: int) -> int { a * l + b * r }
 
 /// C12 as the in-place Lehmer routines deliver it: g is a positive common divisor of l and r that is an integer
@@ -125,7 +135,8 @@ pub fn gcd_ext_in_place(lhs: &mut [Word], rhs: &mut [Word], memory: &mut Memory)
         val(old(lhs)@) > val(old(rhs)@),
     ensures final(lhs)@.len() == old(lhs)@.len(), final(rhs)@.len() == old(rhs)@.len(),
         1 <= ret.0 <= old(rhs)@.len(), ret.1 <= old(lhs)@.len(),
-        inplace_gcd_ext_post(val(old(lhs)@), val(old(rhs)@), valn(final(rhs)@, ret.0 as int), ret.2, valn(final(lhs)@, ret.1 as int)),
+        inplace_gcd_ext_post(val(old(lhs)@), val(old(rhs)@), val(final(rhs)@.subrange(0, ret.0 as int)), ret.2,
+            val(final(lhs)@.subrange(0, ret.1 as int))),
 { unimplemented!() }
 
 /// integer/src/gcd/mod.rs:23 gcd_in_place -> lehmer.rs (NOT verified, ASSUMED).  Doc comment: "assumes lhs > rhs. The
@@ -137,8 +148,8 @@ pub fn gcd_in_place(lhs: &mut [Word], rhs: &mut [Word], memory: &mut Memory) -> 
         old(lhs)@[old(lhs)@.len() - 1] != 0, old(rhs)@[old(rhs)@.len() - 1] != 0,
         val(old(lhs)@) > val(old(rhs)@),
     ensures final(lhs)@.len() == old(lhs)@.len(), final(rhs)@.len() == old(rhs)@.len(),
-        ret.1 ==> ret.0 <= old(rhs)@.len() && gcdo_is_gcd(valn(final(rhs)@, ret.0 as int), val(old(lhs)@), val(old(rhs)@)),
-        !ret.1 ==> ret.0 <= old(lhs)@.len() && gcdo_is_gcd(valn(final(lhs)@, ret.0 as int), val(old(lhs)@), val(old(rhs)@)),
+        ret.1 ==> ret.0 <= old(rhs)@.len() && gcdo_is_gcd(val(final(rhs)@.subrange(0, ret.0 as int)), val(old(lhs)@), val(old(rhs)@)),
+        !ret.1 ==> ret.0 <= old(lhs)@.len() && gcdo_is_gcd(val(final(lhs)@.subrange(0, ret.0 as int)), val(old(lhs)@), val(old(rhs)@)),
 { unimplemented!() }
 
 /// gcd/mod.rs:33, :56 -> lehmer::memory_requirement_(ext_)up_to -> div::memory_requirement_exact
@@ -202,6 +213,13 @@ pub proof fn lemma_gcdo_low_zero(s: Seq<Word>, n: int)
     } else {
         lemma_gcdo_low_zero(s, n - 1);
     }
+}
+
+pub proof fn lemma_gcdo_low_zero_val(s: Seq<Word>)
+    requires s.len() >= 1, val(s) == 0,
+    ensures s[0] == 0,
+{
+    lemma_gcdo_low_zero(s, s.len() as int);
 }
 
 /// m*D == Q*D + r with 0 <= r < D: the division is exact
@@ -307,4 +325,86 @@ pub open spec fn gcdo_mid_state(u: Seq<Word>, ra: Seq<Word>, k: int, w: Word, fi
     &&& k == n
     &&& ra.len() == n + 1
     &&& ((val(ra) == x && w == 0) || (val(ra) != x && val(ra) + pn1 == x && w == 1))
+}
+
+// ---- gcd (no cofactors) ---------------------------------------------------------------------------------------------
+// TRUSTED: dashu_base::Gcd::gcd for Word / DoubleWord (base/src/ring/gcd.rs, one macro body for every width): the
+// definition of the greatest common divisor by divisibility, PROVED for the u8 instance by the complete Kani harness
+// vk_base_gcd_gcd_u8 (kani/harness/base_gcd.rs), ASSUMED for the wider ones; gcd(0, 0) panics: precondition.
+pub trait Gcd<Rhs = Self>: Sized {
+    type Output;
+    spec fn gcd_req(self, rhs: Rhs) -> bool;
+    spec fn gcd_post(self, rhs: Rhs, r: Self::Output) -> bool;
+    fn gcd(self, rhs: Rhs) -> (r: Self::Output)
+        requires self.gcd_req(rhs),
+        ensures self.gcd_post(rhs, r);
+}
+impl Gcd for Word {
+    type Output = Word;
+    open spec fn gcd_req(self, rhs: Word) -> bool { self != 0 || rhs != 0 }
+    open spec fn gcd_post(self, rhs: Word, r: Word) -> bool { gcdo_is_gcd(r as int, self as int, rhs as int) }
+    #[verifier::external_body]
+    fn gcd(self, rhs: Word) -> (r: Word) { unimplemented!() }
+}
+impl Gcd for DoubleWord {
+    type Output = DoubleWord;
+    open spec fn gcd_req(self, rhs: DoubleWord) -> bool { self != 0 || rhs != 0 }
+    open spec fn gcd_post(self, rhs: DoubleWord, r: DoubleWord) -> bool { gcdo_is_gcd(r as int, self as int, rhs as int) }
+    #[verifier::external_body]
+    fn gcd(self, rhs: DoubleWord) -> (r: DoubleWord) { unimplemented!() }
+}
+
+/// gcd(l, 0) == l and gcd(l, l) == l
+pub proof fn lemma_gcdo_gcd_zero(l: int)
+    requires l >= 1,
+    ensures gcdo_is_gcd(l, l, 0),
+{
+    vstd::arithmetic::div_mod::lemma_mod_self_0(l);
+    vstd::arithmetic::div_mod::lemma_small_mod(0, l as nat);
+}
+pub proof fn lemma_gcdo_gcd_self(l: int)
+    requires l >= 1,
+    ensures gcdo_is_gcd(l, l, l),
+{
+    vstd::arithmetic::div_mod::lemma_mod_self_0(l);
+}
+
+pub proof fn lemma_gcdo_gcd_sym(g: int, x: int, y: int)
+    requires gcdo_is_gcd(g, x, y),
+    ensures gcdo_is_gcd(g, y, x),
+{
+    assert forall|d: int| d >= 1 && #[trigger] (y % d) == 0 && x % d == 0 implies g % d == 0 by {
+        assert(x % d == 0);
+    }
+}
+
+/// d | l and d | w  ==>  d | (l mod w)
+pub proof fn lemma_gcdo_rem_div(d: int, l: int, w: int)
+    requires d >= 1, w >= 1, l % d == 0, w % d == 0,
+    ensures (l % w) % d == 0,
+{
+    let q = l / w;
+    vstd::arithmetic::div_mod::lemma_fundamental_div_mod(l, w);
+    // l % w == (-q)*w + l
+    assert(l % w == (-q) * w + l) by (nonlinear_arith) requires l == w * q + l % w;
+    lemma_gcdo_div_comb(d, -q, w, l);
+}
+
+/// gcd(l, w) from the remainder:  l mod w == 0 ==> w;   otherwise every gcd of (l mod w, w) is one of (l, w)
+pub proof fn lemma_gcdo_gcd_rem(l: int, w: int)
+    requires l >= 0, w >= 1,
+    ensures l % w == 0 ==> gcdo_is_gcd(w, l, w),
+        forall|g: int| #[trigger] gcdo_is_gcd(g, l % w, w) ==> gcdo_is_gcd(g, l, w),
+{
+    vstd::arithmetic::div_mod::lemma_mod_self_0(w);
+    assert forall|g: int| #[trigger] gcdo_is_gcd(g, l % w, w) implies gcdo_is_gcd(g, l, w) by {
+        let q = l / w;
+        vstd::arithmetic::div_mod::lemma_fundamental_div_mod(l, w);
+        assert(w * q == q * w) by (nonlinear_arith);
+        lemma_gcdo_div_comb(g, q, w, l % w);
+        assert forall|d: int| d >= 1 && #[trigger] (l % d) == 0 && w % d == 0 implies g % d == 0 by {
+            lemma_gcdo_rem_div(d, l, w);
+            assert((l % w) % d == 0);
+        }
+    }
 }
